@@ -45,6 +45,11 @@ func TestC09_Window(t *testing.T) {
 		delta := rapid.SampledFrom([]uint64{0, 1, 2, 5, 600, 7200}).Draw(t, "timeDelta")
 		p := genC09Protocol(t, "cfg", delta)
 		stack := newStack(p)
+		if rapid.Bool().Draw(t, "rejectingSubmissionValidator") {
+			// the window of an anchored operation is judged against its anchoring time; what a submission-time validator of
+			// the parser would say about it today must not matter
+			stack = newStack(p, operationparser.WithAnchorTimeValidator(&recordingTimeValidator{err: operationparser.ErrOperationExpired}))
+		}
 		typ := rapid.SampledFrom([]string{"update", "recover", "deactivate"}).Draw(t, "opType")
 
 		// (from, until, t): small grid (all orderings and equalities) or large values around a base
